@@ -68,6 +68,9 @@ def plan(prop):
         for n in ((2, 3) if Q else (2, 3, 4)):
             obs.append((core, lambda ctx, n=n: co.ob_time_aware_provider(ctx, n)))
     if prop == 'C15':
+        for k in ((0, 1) if Q else (0, 1, 2)):
+            obs.append((core, lambda ctx, k=k: co.ob_fold_step(ctx, k, True)))
+        obs.append((core, lambda ctx: co.ob_fold_step(ctx, 1, False)))
         import ieee_obligations as io
         for la, lb in (((1, 1), (2, 2), (1, 2)) if Q else ((1, 1), (2, 2), (1, 2), (2, 1), (3, 3), (3, 1))):
             obs.append((core, lambda ctx, la=la, lb=lb: io.ob_reducer(ctx, la, lb)))
